@@ -125,7 +125,13 @@ class ObjectMixin:
             if name == "__cause__":
                 return SNone
             if name == "__dict__":
-                raise Unsupported("__dict__ access")
+                items = []
+                for f in self.index.all_fields(rec.ci):
+                    items.append((self.ops.lit(f), self.obj_getattr(obj, f)))
+                for f, v in rec.fields.items():
+                    if f not in self.index.all_fields(rec.ci) and not f.startswith("__"):
+                        items.append((self.ops.lit(f), v))
+                return self.ops.new_dict(items)
         if rec.meta.get("exception"):
             if name == "args":
                 return rec.fields.get("args", STuple([]))
